@@ -18,6 +18,27 @@ impl<T: FileStore> SendTransaction<T> {
         }
     }
 
+    /// what has_pdu_to_send() answers for a transaction that is not suspended
+    pub open spec fn wants_to_send(&self) -> bool {
+        self.prompt.is_some() || match self.send_state {
+            SendState::SendMetadata => true,
+            SendState::SendData => true,
+            SendState::SendEof => self.naks@.len() > 0 || (self.eof.is_some() && self.eof.unwrap().1),
+            SendState::Cancelled => self.eof.is_some() && self.eof.unwrap().1,
+            SendState::Finished => self.ack.is_some(),
+        }
+    }
+
+    /// C03 "no transaction waits forever": an active transaction always has a PDU to offer to the transport or, in the two waiting
+    /// states (the only ones in which until_timeout() looks at the timers), a running timer whose expiry handle_timeout acts upon
+    pub open spec fn alive_inv(&self) -> bool {
+        // the Finished sub-state exists only to send the ACK(Finished); once that is out the transaction is terminated
+        &&& (self.send_state == SendState::Finished ==> (self.ack.is_some() || self.state == TransactionState::Terminated))
+        &&& (self.state == TransactionState::Active ==> (self.wants_to_send()
+            || ((self.send_state == SendState::SendEof || self.send_state == SendState::Cancelled)
+                && (!self.timer.ack.paused || !self.timer.inactivity.paused))))
+    }
+
     /// limits never change, and a count that has reached its limit stays there (pausing only counts, never clears)
     pub open spec fn limits_sticky(&self, o: Self) -> bool {
         &&& self.timer.ack@.max == o.timer.ack@.max && self.timer.inactivity@.max == o.timer.inactivity@.max
